@@ -29,7 +29,7 @@ ASSUMPTIONS = [
 GATES = {
     "flagged_with_0_visible": 5, "flagged_with_1_visible": 5, "flagged_with_2plus_visible": 5,
     "flagged_on_image_side": 4, "passes_observed": 50, "pipeline_filling_steps": 4, "sgm_mismatch_touching_occlusion": 1,
-    "pixels_judged": 5000,
+    "pixels_judged": 5000, "maps_compared_with_the_run_without_filling": 4, "right_map_compared_with_the_run_without_filling": 1,
 }
 INVALID = 0b1111000011
 OCC, MIS, F_OCC, F_MIS = 256, 512, 16, 32
@@ -339,6 +339,10 @@ def run_case(case, ctx):
         ctx.sample({"case": desc, "flags_before": m.tolist() if H * W <= 40 else "large", "flags_after": ds["validity_mask"].data.tolist() if H * W <= 40 else "large"})
 
 
+def gen_same_elem(x, y):
+    return (x == y) | (np.isnan(x) & np.isnan(y))
+
+
 def _pipe(case, ctx):
     import pandora
 
@@ -387,4 +391,31 @@ def _pipe(case, ctx):
     for name, d0, v0, d1, v1, off in seen:
         judge_step(ctx, case, desc, d0, v0, d1, v1, off, name)
         ctx.gate("pipeline_filling_steps")
+    # end to end, on both maps: the same pipeline without the filling option tells which pixels the cross-check flags; the
+    # filling may change those pixels only, and leaves each of them either filled (bit 4 / 5) or still flagged
+    vkeys = [k for k in keys if pipes.kind_of(k) == "validation"]
+    if len(vkeys) == 1 and keys[-1] == vkeys[0]:
+        lres, rres = m.left_disparity, m.right_disparity
+        params0 = {k: dict(v) for k, v in params.items()}
+        params0[vkeys[0]].pop("interpolated_disparity", None)
+        l0, r0, _, _ = pipes.check_and_run(pipes.build_pipe(keys, params0), gen.make_dataset(l, (a, b), lm), gen.make_dataset(r, None, None))
+        for side, plain, filled in (("left", l0, lres), ("right", r0, rres)):
+            if filled is None or "validity_mask" not in filled:
+                continue
+            m0, m1 = plain["validity_mask"].data.astype(np.int64), filled["validity_mask"].data.astype(np.int64)
+            d0_, d1_ = plain["disparity_map"].data, filled["disparity_map"].data
+            flagged = (m0 & (256 | 512)) != 0
+            ctx.gate("maps_compared_with_the_run_without_filling")
+            ctx.gate("right_map_compared_with_the_run_without_filling", int(side == "right" and bool(flagged.any())))
+            other = ~flagged & ~(gen_same_elem(d0_, d1_) & (m0 == m1))
+            if other.any():
+                i = np.argwhere(other)[0]
+                ctx.violation("filling-changed-a-pixel-the-cross-check-did-not-flag",
+                              f"{side} map pixel {i.tolist()}: flag {int(m0[tuple(i)])} -> {int(m1[tuple(i)])}, disparity {d0_[tuple(i)]!r} -> "
+                              f"{d1_[tuple(i)]!r} (run without filling -> run with {fill})", case, situation=f"{fill}:{side}", desc=desc)
+            bad = flagged & ((m1 & (16 | 32 | 256 | 512)) == 0)
+            if bad.any():
+                i = np.argwhere(bad)[0]
+                ctx.violation("flagged-pixel-neither-filled-nor-flagged",
+                              f"{side} map pixel {i.tolist()}: flag {int(m0[tuple(i)])} -> {int(m1[tuple(i)])}", case, situation=f"{fill}:{side}", desc=desc)
     ctx.case(["pipe", keys, desc["params"], [rows, cols], [a, b]], nontrivial=len(seen) > 0)
